@@ -27,6 +27,8 @@ def mk_id(code, scheme):
         return code
     if scheme == "jstr":      # JSON-native ids including the falsy empty string
         return "" if code == 2 else ("n%d" % code if code >= 26 else "abc\u00e9efghijklmnopqrstuvwxyz"[code])
+    if scheme == "jmix":      # JSON-native ids of two types that print alike: 3 and "3"
+        return code // 2 if code % 2 == 0 else str(code // 2)
     if scheme == "dstr":
         return str(code)
     if scheme == "ustr":      # strings containing the separator of temporal_dag's occurrence names
@@ -601,7 +603,9 @@ class Impl:
                 c = C(n)
                 e = {}
                 if c == 99:
-                    per[str(c)] = {"hasnode": guard(lambda: 1 if G.has_node(n, t) else 0)}
+                    # an unknown node, and (flattened view) something that cannot even be a node
+                    per[str(c)] = {"hasnode": guard(lambda: 1 if G.has_node(n, t) else 0),
+                                   "hasnode_unhashable": guard(lambda: 1 if G.has_node([n], None) else 0)}
                     continue
                 e["nbrs"] = guard(lambda: sl(G.neighbors(n, t)))
                 e["nbrs_iter"] = guard(lambda: sl(G.neighbors_iter(n, t)))
@@ -611,6 +615,8 @@ class Impl:
                     e["pred"] = guard(lambda: sl(G.predecessors(n, t)))
                     e["succ_iter"] = guard(lambda: sl(G.successors_iter(n, t)))
                     e["pred_iter"] = guard(lambda: sl(G.predecessors_iter(n, t)))
+                    e["indeg1"] = guard(lambda: dd(G.in_degree(n, t)))       # single-node forms
+                    e["outdeg1"] = guard(lambda: dd(G.out_degree(n, t)))
                 e["hasnode"] = guard(lambda: 1 if G.has_node(n, t) else 0)
                 e["deg1"] = guard(lambda: dd(G.degree(n, t)))
                 if c != 99:
@@ -747,6 +753,55 @@ class Impl:
         v = tok(v)
         res = _paths.time_respecting_paths(G, self.I(int(u)), None if v is None else self.I(v), tok(a), tok(b))
         return self._paths_out(res)
+
+    def op_trps(self, s, u, v, a, b, num, den, *perm):
+        """sample = num/den < 1 with numpy's draw replaced by the permutation given on the line (restricted to the
+        indices that exist), so that the model can follow the same draw; everything else is the library's code"""
+        import numpy as np
+        G = self.G(s)
+        v = tok(v)
+        perm = [int(x) for x in perm]
+        real = np.random.choice
+        seen = {}
+
+        def choice(n, size=None, replace=True, p=None):
+            assert replace is False and p is None, "time_respecting_paths must draw without replacement"
+            seen["n"] = n
+            return np.array([i for i in perm if i < n][:size], dtype=int)
+        np.random.choice = choice
+        try:
+            res = _paths.time_respecting_paths(G, self.I(int(u)), None if v is None else self.I(v), tok(a), tok(b), sample=int(num) / int(den))
+        finally:
+            np.random.choice = real
+        if seen.get("n", 0) > len(perm):
+            return "skip"
+        return self._paths_out(res)
+
+    def op_trpsub(self, s, u, v, a, b, num, den, seed):
+        """the real numpy draw: the sampled result must be a subset of the full one (1) """
+        import numpy as np
+        G = self.G(s)
+        v = tok(v)
+        np.random.seed(int(seed))
+        U, V = self.I(int(u)), None if v is None else self.I(v)
+        part = _paths.time_respecting_paths(G, U, V, tok(a), tok(b), sample=int(num) / int(den))
+        full = _paths.time_respecting_paths(G, U, V, tok(a), tok(b))
+        part = part if isinstance(part, dict) else {}
+        full = full if isinstance(full, dict) else {}
+        return 1 if all(k in full and all(p in full[k] for p in ps) for k, ps in part.items()) else 0
+
+    def op_occrt(self, t, *name):
+        """encode / decode of DAG node names through the library: a graph name -x at t, the path from name"""
+        nm = "".join(chr(int(c)) for c in name)
+        t = int(t)
+        G = dn.DynGraph()
+        G.add_interaction(nm, "x", t)
+        res = _paths.time_respecting_paths(G, nm)
+        hops = [h for ps in res.values() for p in ps for h in p] if isinstance(res, dict) else []
+        if len(hops) != 1:
+            return {"unexpected": repr(dict(res) if isinstance(res, dict) else res)[:200]}
+        a, b, tt = hops[0]
+        return [[ord(c) for c in a], [ord(c) for c in b], tt]
 
     def op_atrp(self, s, a, b, m):
         import tqdm
